@@ -73,6 +73,9 @@ class CompiledFunction:
     source_map: Dict[int, Tuple[int, int]] = field(
         default_factory=dict
     )  # bytecode_pos -> (line, column)
+    # Slot that holds the function itself on entry: the own name of a named function
+    # expression, unless a parameter or a declaration of the body has that name
+    self_slot: Optional[int] = None
 
 
 @dataclass(eq=False)  # contexts are compared by identity: nested ones may have equal fields
@@ -1288,8 +1291,14 @@ class Compiler:
         self._in_function = True
 
         # Collect all var declarations to know the full locals set
-        local_vars_set = set(self.locals)
-        self._collect_var_decls(body, local_vars_set)
+        declared: set = set()
+        self._collect_var_decls(body, declared)
+        self_slot = None
+        if is_expression and name and name not in declared:
+            self_slot = self.locals.index(name)
+            if self_slot < len(params):
+                self_slot = None  # a parameter of that name shadows the own name
+        local_vars_set = set(self.locals) | declared
         # Update locals list with collected vars
         for var in local_vars_set:
             if var not in self.locals:
@@ -1328,6 +1337,7 @@ class Compiler:
             free_vars=self._free_vars[:],
             cell_vars=self._cell_vars[:],
             source_map=self.source_map,
+            self_slot=self_slot,
         )
 
         # Pop outer scope if we pushed it
